@@ -456,6 +456,27 @@ def cloneL (E : Env) (oSrc oDst : Nat) (arg : Option CopyMode) (all : Bool) :
     let rs := cloneL E oSrc oDst arg all r.2.2 sls
     (r.1 :: rs.1, r.2.1 :: rs.2.1, rs.2.2)
 
+/-- Does this iteration of the loop of `copy_traits` end in the bare `except:` - is the name appended to the
+`unassignable` list the method returns? -/
+def cloneSlotFails (E : Env) (oSrc oDst : Nat) (arg : Option CopyMode) (all : Bool) (n : Nat) (src : Slot) : Bool :=
+  let dst : Slot := ⟨src.decl, none⟩
+  if src.decl.copyable || (all && src.decl.kind != .event) then
+    let r := readSlot E oSrc n src
+    match copyValue E (effMode src.decl.copy arg) r.2.2 r.1 with
+    | .error _ => true
+    | .ok (v, n1) =>
+      match assignSlot E oDst n1 dst v with
+      | .error _ => true
+      | .ok _ => false
+  else false
+
+/-- What `copy_traits` returns: the names it could not copy, in class order. -/
+def cloneUnassignable (E : Env) (oSrc oDst : Nat) (arg : Option CopyMode) (all : Bool) : Nat → List Slot → List String
+  | _, [] => []
+  | n, sl :: sls =>
+    (if cloneSlotFails E oSrc oDst arg all n sl then [sl.decl.name] else []) ++
+      cloneUnassignable E oSrc oDst arg all (cloneSlot E oSrc oDst arg all n sl).2.2 sls
+
 /-- `obj.clone_traits(copy=arg)`: `copy_traits` over the copyable names of the
 source (`all = false`).  When no trait is copyable the list is empty and
 `copy_traits` - which reads an empty list as "all" - is not called at all
